@@ -999,6 +999,10 @@ func (a *zzfApp) VerifyTransaction(req *labi.VerifyTransactionRequest) (*labi.Ve
 	return &labi.VerifyTransactionResponse{Result: a.verify[i]}, nil
 }
 func (a *zzfApp) ExecuteTransaction(req *labi.ExecuteTransactionRequest) (*labi.ExecuteTransactionResponse, error) {
+	// like the real in-process application (framework.ABIHandler.ExecuteTransaction) the scripted one READS the
+	// consensus parameters of the request: an engine that leaves them out crashes here (defect found on the real
+	// handler by zzH_C16_abi_exec_engine_request)
+	_ = req.Consensus.ImplyMaxPrevote
 	i := int(req.Transaction.Params[0])
 	if !a.drawnE[i] {
 		v := a.t.I32(a.t.Name("execute", i))
